@@ -229,3 +229,25 @@ def const_val(e):
     if e[0] == "const" and isinstance(e[1], int):
         return e[1]
     return None
+
+
+def eval_const(e):
+    """Fold an expression made of integer constants (Add/Sub, checked-tuple .0, casts); None if not constant."""
+    k = e[0]
+    if k == "const":
+        return e[1] if isinstance(e[1], int) else None
+    if k == "cast":
+        return eval_const(e[2])
+    if k == "field" and e[2] == "0" and e[1][0] == "bin" and e[1][1].endswith("WithOverflow"):
+        return eval_const(("bin", e[1][1][:-12], e[1][2], e[1][3]))
+    if k == "bin":
+        a, b = eval_const(e[2]), eval_const(e[3])
+        if a is None or b is None:
+            return None
+        if e[1] in ("Add", "AddWithOverflow"):
+            return a + b
+        if e[1] in ("Sub", "SubWithOverflow"):
+            return a - b
+        if e[1] in ("Mul", "MulWithOverflow"):
+            return a * b
+    return None
